@@ -56,6 +56,31 @@ pub fn parse_line(line: &str) -> Option<grep::GrepLine> {
                         submatches: None,
                     })
                 }
+                Value::String(s) if s == "match" || s == "context" => {
+                    // A line or a path which is not valid UTF-8 comes as {"bytes": base64}
+                    // instead of {"text": ...}.
+                    let data = &value["data"];
+                    let mut code = text_or_bytes(&data["lines"])?;
+                    if code.ends_with('\n') {
+                        code.truncate(code.len() - 1);
+                        if code.ends_with('\r') {
+                            code.truncate(code.len() - 1);
+                        }
+                    }
+                    Some(grep::GrepLine {
+                        grep_type: crate::config::GrepType::Ripgrep,
+                        line_type: if s == "match" {
+                            grep::LineType::Match
+                        } else {
+                            grep::LineType::Context
+                        },
+                        line_number: data["line_number"].as_u64().map(|n| n as usize),
+                        path: Cow::from(text_or_bytes(&data["path"])?),
+                        code: Cow::from(code),
+                        // (the offsets refer to the bytes, not to the text they are shown as)
+                        submatches: Some(Vec::new()),
+                    })
+                }
                 _ => {
                     // Failed to interpret the line as ripgrep output; allow
                     // another delta handler to try.
@@ -64,6 +89,34 @@ pub fn parse_line(line: &str) -> Option<grep::GrepLine> {
             }
         }
     }
+}
+
+/// The string of a `{"text": string}` or `{"bytes": base64 string}` object, undecodable bytes
+/// replaced.
+fn text_or_bytes(value: &Value) -> Option<String> {
+    if let Some(text) = value["text"].as_str() {
+        return Some(text.to_string());
+    }
+    let mut bytes = Vec::new();
+    let (mut bits, mut n_bits) = (0u32, 0);
+    for c in value["bytes"].as_str()?.bytes() {
+        let sextet = match c {
+            b'A'..=b'Z' => c - b'A',
+            b'a'..=b'z' => c - b'a' + 26,
+            b'0'..=b'9' => c - b'0' + 52,
+            b'+' => 62,
+            b'/' => 63,
+            _ => continue,
+        };
+        bits = (bits << 6) | sextet as u32;
+        n_bits += 6;
+        if n_bits >= 8 {
+            n_bits -= 8;
+            bytes.push((bits >> n_bits) as u8);
+            bits &= (1 << n_bits) - 1;
+        }
+    }
+    Some(String::from_utf8_lossy(&bytes).into_owned())
 }
 
 //   {
